@@ -16,6 +16,17 @@ Theorem C14_empty_continues : forall head vals s,
   supported vals = true -> table vals = None -> w_ops head (render vals) s = s.
 Proof. intros head vals s S T. apply empty_return_continues. apply empty_writes_nothing; assumption. Qed.
 
+(* a return handler registered in the injector replaces the table: the one mapped in the request
+   scope, else the one mapped in the application scope, else the default table; nothing is called when
+   nothing was returned *)
+Theorem C14_override : forall apprh s acts v r,
+  rendering apprh s (HNormal acts (v :: r)) =
+  match rh s with Some k => custom_rh k | None => match apprh with Some k => custom_rh k | None => render (v :: r) end end.
+Proof. exact rendering_nearest. Qed.
+
+Theorem C14_nothing_returned : forall apprh s acts, rendering apprh s (HNormal acts []) = [].
+Proof. exact rendering_nothing_returned. Qed.
+
 Theorem C14_response_is_written : forall vals r,
   supported vals = true -> table vals = Some r -> render vals <> [].
 Proof. exact response_is_written. Qed.
